@@ -165,3 +165,46 @@ func Mutate(t *rapid.T, b []byte) ([]byte, string) {
 	}
 	return b, kind
 }
+
+// MutateDeep applies Mutate inside a nested length-delimited payload (chosen by draws, up to
+// three levels down) and re-encodes the enclosing length prefixes, so that the defect sits inside
+// a submessage / map entry / packed run rather than at the top level. Falls back to Mutate when b
+// has no length-delimited record.
+func MutateDeep(t *rapid.T, b []byte) ([]byte, string) {
+	return mutateDeep(t, b, 3)
+}
+
+func mutateDeep(t *rapid.T, b []byte, levels int) ([]byte, string) {
+	recs, ok := ref.Split(b)
+	var idx []int
+	if ok {
+		for i, r := range recs {
+			if r.Typ == 2 && len(r.Payload()) > 0 {
+				idx = append(idx, i)
+			}
+		}
+	}
+	if len(idx) == 0 || levels == 0 {
+		return Mutate(t, b)
+	}
+	i := idx[rapid.IntRange(0, len(idx)-1).Draw(t, "deeprec")]
+	payload := recs[i].Payload()
+	var np []byte
+	var kind string
+	if levels > 1 && rapid.Bool().Draw(t, "deeper") {
+		np, kind = mutateDeep(t, payload, levels-1)
+	} else {
+		np, kind = Mutate(t, payload)
+	}
+	var out []byte
+	for j, r := range recs {
+		if j != i {
+			out = append(out, r.Raw...)
+			continue
+		}
+		out = ref.Tag(out, r.Num, 2)
+		out = ref.Varint(out, uint64(len(np)))
+		out = append(out, np...)
+	}
+	return out, "deep-" + kind
+}
